@@ -5,8 +5,13 @@ CONSTANTS Depth, Values, Prices, GasLimits, DataLens, DNonces, ScenarioSet
 \* fee settings: minGasPrice 1, minGasLimit 2, gasPerDataByte 1, max gas per block 8, price modifier 1/2 (exact in
 \* float64), supply 40; the three flag configurations that exist in history:
 \*   legacy (both off), penalized-too-much-gas on, both on (current)
-MCEco == {[minPrice |-> 1, minLimit |-> 2, perByte |-> 1, maxGas |-> 8, num |-> 1, den |-> 2, fp |-> f[1], fm |-> f[2],
-           supply |-> 40] : f \in {<<FALSE, FALSE>>, <<TRUE, FALSE>>, <<TRUE, TRUE>>}}
+Flags == {<<FALSE, FALSE>>, <<TRUE, FALSE>>, <<TRUE, TRUE>>}
+EcoA(f) == [minPrice |-> 1, minLimit |-> 2, perByte |-> 1, maxGas |-> 8, num |-> 1, den |-> 2, fp |-> f[1], fm |-> f[2],
+            supply |-> 40]
+\* second fee setting (thorough): price 1 is below the minimum, no gas for the bare transfer's data, modifier 1/2
+EcoB(f) == [minPrice |-> 2, minLimit |-> 1, perByte |-> 2, maxGas |-> 7, num |-> 1, den |-> 2, fp |-> f[1], fm |-> f[2],
+            supply |-> 4]
+MCEco == IF ScenarioSet = "quick" THEN {EcoA(f) : f \in Flags} ELSE {EcoA(f) : f \in Flags} \cup {EcoB(f) : f \in Flags}
 
 F(x, y, z) == [a |-> x, b |-> y, c |-> z]
 \* "c" does not exist in most scenarios (balance 0, nonce 0)
@@ -25,7 +30,7 @@ Rep(tx) == tx.value = 0 /\ tx.price = 1 /\ tx.gl = 3 /\ tx.dl = 0
 MCTxs == {tx \in [snd : Accts, rcv : Accts, dn : DNonces, value : Values, price : Prices, gl : GasLimits, dl : DataLens] :
             /\ tx.dn # 0 => Rep(tx)
             /\ tx.price < 1 => Rep([tx EXCEPT !.price = 1])
-            /\ tx.value > 40 => Rep([tx EXCEPT !.value = 0])}
+            /\ tx.value > 40 => Rep([tx EXCEPT !.value = 0])}    \* (with EcoB's supply 4 the value 41 is out of bounds, 4 is the limit)
 
 MCDN == {-1, 0, 1}
 
@@ -34,7 +39,9 @@ LogLast(h, r) == <<r>>
 GenNext  == Len(hist) < Depth /\ Next
 GenSpec  == Init /\ [][GenNext]_vars
 EmitEdge == PrintT("@@B " \o ToJson(hist'))
-EmitFull == (Len(hist') = Depth) => PrintT("@@B " \o ToJson(hist'))
+\* simulation: TLC evaluates the constraint on every candidate successor, i.e. on every last-step variant of a walk;
+\* a random 1/40 of them is exported
+EmitFull == (Len(hist') = Depth /\ RandomElement(1..40) = 1) => PrintT("@@B " \o ToJson(hist'))
 \* exhaustive checking to a bounded number of transactions: count steps in a bounded way through the nonces
 \* (every charged transaction increases a nonce; rejected ones change nothing, so the state space is finite)
 ====
